@@ -13,6 +13,7 @@ import (
 	"slices"
 	"strings"
 	"sync"
+	"unsafe"
 
 	"golang.org/x/tools/go/ssa"
 )
@@ -1076,6 +1077,18 @@ func (e *Engine) callBuiltin(caller *frame, pos token.Pos, fn *ssa.Builtin, args
 			e.rtPanic(fmt.Sprintf("value method %s.%s called using nil *%s pointer", args[1], args[2], args[1]))
 		}
 		return recv
+
+	case "String": // unsafe.String(ptr *byte, len): the bytes behind ptr as a string
+		n := e.concretizeInt(args[1], "unsafe.String len")
+		p, _ := args[0].(*Value)
+		if n == 0 {
+			return ""
+		}
+		if p == nil || n < 0 || n > 1<<24 {
+			e.rtPanic("unsafe.String: ptr is nil and len is not zero")
+		}
+		// element pointers of the engine's slices point into a host []Value: take the view back
+		return e.bytesToString(append([]Value(nil), unsafe.Slice(p, int(n))...))
 
 	case "ssa:deferstack":
 		return &caller.defers
